@@ -25,8 +25,8 @@ def sh(cmd, cwd=None, timeout=3600):
 
 
 def confirm(a):
-    wt = f'/tmp/seed/{a.prop}'
-    out = f'/tmp/seed/{a.prop}-out'
+    wt = f'{a.root}/{a.prop}'
+    out = f'{a.root}/{a.prop}-out'
     patch = f'{out}/{a.which}.patch.diff'
     demo = f'{out}/{a.which}.demo.rs'
     assert os.path.exists(patch) and os.path.exists(demo), 'missing files'
@@ -82,11 +82,11 @@ def confirm(a):
     res['confirmed'] = bool(ok)
     print(json.dumps(res, indent=1))
     if ok:
-        d = f'{V}/seeded/{a.prop}-{a.which}'
+        d = f'{V}/seeded/{a.prop}-{a.tag}{a.which}'
         os.makedirs(d, exist_ok=True)
         shutil.copy(patch, f'{d}/patch.diff')
         shutil.copy(demo, f'{d}/demo.rs')
-        meta = {'id': f'{a.prop}-{a.which}', 'property': a.prop, 'description': a.desc, 'needs': a.needs, 'confirmation': res, 'checks': {}}
+        meta = {'id': f'{a.prop}-{a.tag}{a.which}', 'property': a.prop, 'description': a.desc, 'needs': a.needs, 'confirmation': res, 'checks': {}}
         if os.path.exists(f'{d}/meta.json'):
             old = json.load(open(f'{d}/meta.json'))
             meta['checks'] = old.get('checks', {})
@@ -147,6 +147,7 @@ def main():
     c.add_argument('--runs', type=int, default=5); c.add_argument('--runs-orig', type=int, default=2)
     c.add_argument('--timeout', type=int, default=300)
     c.add_argument('--desc', default=''); c.add_argument('--needs', default='')
+    c.add_argument('--root', default='/tmp/seed'); c.add_argument('--tag', default='')
     k = sp.add_parser('check')
     k.add_argument('id'); k.add_argument('--tier', default='quick'); k.add_argument('--cases', type=int, default=0)
     k.add_argument('--prop', default=''); k.add_argument('--no-fuzz', action='store_true')
